@@ -293,7 +293,7 @@ func Encrypt(pub *PublicKey, data []byte, random io.Reader, mode int) ([]byte, e
 		h := sm3.Sm3Sum(tm)
 		c = append(c, h...)
 		ct, ok := kdf(length, x2Buf, y2Buf) // 密文
-		if !ok {
+		if !ok && length > 0 {
 			continue
 		}
 		c = append(c, ct...)
@@ -356,7 +356,7 @@ func Decrypt(priv *PrivateKey, data []byte, mode int) ([]byte, error) {
 		y2Buf = append(zeroByteSlice()[:32-n], y2Buf...)
 	}
 	c, ok := kdf(length, x2Buf, y2Buf)
-	if !ok {
+	if !ok && length > 0 {
 		return nil, errors.New("Decrypt: failed to decrypt")
 	}
 	for i := 0; i < length; i++ {
